@@ -38,6 +38,9 @@
 #include <AIToolbox/MDP/Algorithms/SARSAL.hpp>
 #include <AIToolbox/MDP/Algorithms/PrioritizedSweeping.hpp>
 #include <AIToolbox/Utils/Probability.hpp>
+#include <AIToolbox/MDP/ThompsonModel.hpp>
+#include <AIToolbox/MDP/Experience.hpp>
+#include <AIToolbox/Seeder.hpp>
 
 using namespace verif;
 namespace A = AIToolbox;
@@ -214,6 +217,28 @@ static std::vector<Subject> subjects() {
         A::Verif::anytimeObserver = nullptr;
         Out o; o.push_back(lb); o.push_back(ub); flat(o, vl); flat(o, q); return o; }});
     // --- learners on a fixed experience stream (deterministic functions of the stream)
+    // random-variate helpers and the models built on them: every variate must come from the engine handed in (seeded per
+    // object from Seeder), never from a distribution object shared across calls (libstdc++'s gamma/normal distributions cache a deviate)
+    v.push_back({"DirichletBetaSampling", false, [](uint64_t ps, int) {
+        Rng r(ps); Out o;
+        A::RandomEngine e1((unsigned)A::Seeder::getSeed());
+        for (int k = 0; k < 3; ++k) {
+            const size_t n = 2 + r.below(4);
+            A::Vector params(n); for (size_t i = 0; i < n; ++i) params[i] = 0.5 + 0.25 * (double)r.below(12);
+            auto d = A::sampleDirichletDistribution(params, e1); flat(o, d);
+            o.push_back(A::sampleBetaDistribution(0.5 + (double)r.below(5), 0.5 + (double)r.below(5), e1));
+        }
+        return o; }});
+    v.push_back({"ThompsonModel", false, [](uint64_t ps, int) {
+        auto t = mdpOf(ps); auto m = toDense(t);
+        A::MDP::Experience exp(t.S, t.A);
+        Rng r(ps ^ 77); size_t s = 0;
+        for (int i = 0; i < 40; ++i) { size_t a = r.below(t.A); auto [s1, rew] = m.sampleSR(s, a); exp.record(s, a, s1, rew); s = s1; }
+        A::MDP::ThompsonModel<A::MDP::Experience> tm(exp, 0.9);
+        tm.sync();
+        Out o; for (size_t a = 0; a < t.A; ++a) flat(o, A::Matrix2D(tm.getTransitionFunction(a)));
+        tm.sync(0, 0); for (size_t s1 = 0; s1 < t.S; ++s1) o.push_back(tm.getTransitionProbability(0, 0, s1));
+        return o; }});
     v.push_back({"QLearning+SARSAL+PrioritizedSweeping", true, [](uint64_t ps, int mode) {
         auto t = mdpOf(ps); auto m = toDense(t);
         A::MDP::QLearning ql(t.S, t.A, t.discount, 0.5); A::MDP::SARSAL sl(t.S, t.A, t.discount, 0.5, 0.5, 0.001);
